@@ -1,0 +1,11 @@
+//go:build verif
+
+package cache
+
+import "github.com/thought-machine/please/src/core"
+
+// VerifDirCacheClean runs one pass of the directory cache's background cleaning on a cache created by
+// NewCache (which must be a plain directory cache) and returns what clean returns.
+func VerifDirCacheClean(c core.Cache, highWaterMark, lowWaterMark uint64) uint64 {
+	return c.(*dirCache).clean(highWaterMark, lowWaterMark)
+}
